@@ -339,10 +339,6 @@ impl Compiler {
 
         self.push_span(node, ctx.ast);
 
-        if !self.frame_stack.is_empty() {
-            self.frame_mut().last_node_was_return = matches!(&node.node, Node::Return(_));
-        }
-
         let result = match &node.node {
             Node::Null => {
                 let result = self.assign_result_register(ctx)?;
@@ -643,6 +639,13 @@ impl Compiler {
                 unreachable!();
             }
         };
+
+        // This is set once the node has been compiled, so that at the end of a frame the flag
+        // refers to the frame's last expression rather than to a node nested inside it,
+        // e.g. a `return` in the body of an `if` without an `else`.
+        if !self.frame_stack.is_empty() {
+            self.frame_mut().last_node_was_return = matches!(&node.node, Node::Return(_));
+        }
 
         self.pop_span();
 
